@@ -126,6 +126,27 @@ def run_case(case):
                     except Exception as e:
                         v.append(viol("transformer-exception:%s" % type(e).__name__, "fit(%s, y=%s) raised %r" % (name, target, e)))
                         continue
+                    sup_degenerate = False
+                    if target is not None and name == "csr" and power == 1.0:
+                        canon = np.unique(np.array(target), return_inverse=True)[1].astype(np.int64)
+                        sw = np.asarray(information_weight(fm[name].copy(), ps, approx, target=canon), dtype=np.float64)
+                        # all class-level divergences are rounding noise: the mean-normalisation is 0/0 (outside the claim)
+                        sup_degenerate = bool(np.all(np.abs(sw) < 1e-12)) or degenerate
+                    if target is not None and name == "csr" and not sup_degenerate and power == 1.0:
+                        # the supervised weight is the KL weight of the class-aggregated matrix: it depends on the PARTITION
+                        # of the rows only, so any renaming of the class labels (non-contiguous, negative, unordered,
+                        # strings) must learn the same weights - in particular finite where the canonical labels are
+                        for rn, relabel in (("gaps", lambda c: 10 * c + 3), ("negative", lambda c: -7 * c - 2), ("reversed", lambda c: 100 - c), ("strings", lambda c: "k%d" % c)):
+                            y2 = np.array([relabel(c) for c in target])
+                            try:
+                                t2 = InformationWeightTransformer(prior_strength=ps, approx_prior=approx, weight_power=power)
+                                t2.fit(fm[name].copy(), y=y2)
+                                w2 = np.asarray(t2.information_weights_, dtype=np.float64)
+                            except Exception as e:
+                                v.append(viol("relabel-exception:%s:%s" % (rn, type(e).__name__), "fit(y=%s) raised %r" % (y2.tolist(), e)))
+                                continue
+                            if not np.allclose(w2, w, rtol=1e-9, atol=1e-12, equal_nan=True):
+                                v.append(viol("weights-depend-on-label-names:%s" % rn, "y=%s gives %s, y=%s gives %s (matrix %s)" % (target, w.tolist(), y2.tolist(), w2.tolist(), M.tolist())))
                     if not np.isfinite(w).all() or (w < 0).any():
                         if degenerate or target is not None or approx:
                             continue    # 0/0 mean-normalisation or empty class: outside the exact-prior claim
